@@ -27,6 +27,11 @@
 (*               to redact": returned as is, and the error text is left alone   *)
 (*   "ptrcache"  the error text is cached per argument POINTER (and *Userinfo   *)
 (*               pointer): stale after the caller edited path or query          *)
+(*   "scratch"   the error text is built in a package-level scratch buffer and  *)
+(*               the error's URL string is a view of it: right when looked at   *)
+(*               at once, overwritten by the next call                          *)
+(* The *url.Error values are results too: the caller keeps them, and what a     *)
+(* call wrote into one must stay what it was.                                   *)
 EXTENDS Integers, Sequences, FiniteSets, TLC
 
 CONSTANTS Impl, Inputs, MaxSteps
@@ -36,8 +41,11 @@ VARIABLES heap,       \* heap[id]: current value of object id
           last,       \* the last call: [arg, argval, res, val, err] (values at return time)
           memo,       \* "memo":     [set, key, res]
           pcache,     \* "ptrcache": [set, id, user, text]
+          errs,       \* the *url.Error values the caller keeps: [text (what the call wrote), view (TRUE: the text is a
+                      \* view of the shared scratch buffer)]; untouched errors are not recorded
+          scratch,    \* "scratch": the text currently held by the package-level scratch buffer
           steps
-vars == <<heap, results, last, memo, pcache, steps>>
+vars == <<heap, results, last, memo, pcache, errs, scratch, steps>>
 
 V(u, p, q) == [user |-> u, path |-> p, query |-> q]
 ModelInputs == <<V("orig", "orig", "orig"), V("orig", "orig", "orig"), V("none", "orig", "orig")>>
@@ -57,6 +65,7 @@ Init == /\ heap = Inputs
         /\ last = NoCall
         /\ memo = [set |-> FALSE, key |-> Blank, res |-> 0]
         /\ pcache = [set |-> FALSE, id |-> 0, user |-> "none", text |-> Untouched]
+        /\ errs = <<>> /\ scratch = Untouched
         /\ steps = 0
 
 (* RedactUserinfo(object i) and RedactUserinfoInURLError(object i, err) *)
@@ -68,6 +77,8 @@ Call(i) ==
                    ELSE ErrText(x)
     IN
     /\ steps' = steps + 1
+    /\ errs' = IF errtext.set THEN Append(errs, [text |-> errtext, view |-> (Impl = "scratch")]) ELSE errs
+    /\ scratch' = IF Impl = "scratch" /\ errtext.set THEN errtext ELSE scratch
     /\ pcache' = IF Impl = "ptrcache" /\ x.user # "none" THEN [set |-> TRUE, id |-> i, user |-> x.user, text |-> errtext]
                  ELSE pcache
     /\ IF x.user = "none" \/ (Impl = "shortcut" /\ x.user = "mask")
@@ -92,7 +103,7 @@ Mutate(r, f) ==
     /\ steps' = steps + 1
     /\ heap' = [heap EXCEPT ![r] = Mut(@, f)]
     /\ last' = NoCall
-    /\ UNCHANGED <<results, memo, pcache>>
+    /\ UNCHANGED <<results, memo, pcache, errs, scratch>>
 
 Next == /\ steps < MaxSteps
         /\ \/ \E i \in DOMAIN heap : Call(i)
@@ -108,6 +119,9 @@ ErrTextOfThisArg == last.arg # 0 => last.err = ErrText(last.argval)
 (* no object is handed out twice; a result is either new or (nothing to redact) the argument itself *)
 FreshAcrossCalls == \A j, k \in DOMAIN results : j # k => results[j] # results[k]
 ResultsAreNew == \A k \in DOMAIN results : results[k] > NIn
+(* what a call wrote into an error stays what it was, whatever is redacted later *)
+ReadErr(e) == IF e.view THEN scratch ELSE e.text
+ErrTextsAreValues == \A k \in DOMAIN errs : ReadErr(errs[k]) = errs[k].text
 (* a call writes to no existing object (inputs and earlier results alike) *)
 CallsWriteNothing == [][(last'.arg # 0) => \A id \in DOMAIN heap : heap'[id] = heap[id]]_vars
 =============================================================================
